@@ -98,7 +98,7 @@ def main():
     per_fn, fns, items, assumptions, transforms, unit_summ, ext_auto = [], [], [], [], [], [], []
     for r in results:
         unit_ok = r['status'] != 'undecided' or bool(r['failed'] or r['panic'])
-        unit_summ.append(dict(unit=r['unit'], status=r['status'], verified=r.get('verified'), errors=r.get('errors'),
+        unit_summ.append(dict(unit=r['unit'], status=r['status'], verified=r.get('verified'), errors=r.get('errors'), passes=r.get('passes'), dropped_hints=r.get('dropped_hints'), lost_hints=r.get('lost_hints'),
                               wall_s=r['wall_s'], gen_lines=r.get('gen_lines'), notes=[n[:300] for n in r['notes']]))
         if r['status'] == 'undecided' and not (r['failed'] or r['panic'] or r['termination']):
             undecided.append((r['unit'], r['notes']))
@@ -116,7 +116,8 @@ def main():
                     known_lines.append('KNOWN-FINDING: property=%s %s %s' % (prop, cid, open_findings[cid].get('what', '')))
                 else:
                     viol.append(dict(unit=r['unit'], clause=cid, text=c['text'], kind=c['kind'], fn=c['fn'],
-                                     verus_output=r['failed'][cid], replay=(r.get('replay') or {}).get(cid)))
+                                     verus_output=r['failed'][cid], replay=(r.get('replay') or {}).get(cid),
+                                     dropped_hints=r.get('dropped_hints'), lost_hints=r.get('lost_hints')))
             if ok:
                 discharged += 1
             if len(samples) < 400:
@@ -169,6 +170,9 @@ def main():
             rp = v.get('replay') or {}
             doc = dict(property=prop, unit=v['unit'], failed_obligation=v['clause'], obligation_text=v['text'],
                        kind=v['kind'], function=v['fn'], verus_output=v['verus_output'], tier=tier, seed=seed,
+                       proof_hints_dropped=v.get('dropped_hints') or [], proof_hints_anchor_lost=v.get('lost_hints') or [],
+                       note=('proof hints that no longer held / fit were removed and the unit re-verified without them before this obligation was reported'
+                             if (v.get('dropped_hints') or v.get('lost_hints')) else ''),
                        how_to_rerun='cd /verif && ./check %s --replay %s' % (prop, path))
             if rp.get('found'):
                 doc.update(input=rp.get('input'), observed=rp.get('observed'), expected=rp.get('expected'))
